@@ -21,9 +21,17 @@ func VerifHarness_C10_ZeroGuard() {
 		st = verifNamed("S", verifUserPkg, st)
 	}
 	var tt types.Type = types.Typ[types.String]
-	same := nondetChoice("t.identical", 2) == 1
-	if same {
+	tsel := nondetChoice("t.identical", 3)
+	same := tsel == 1
+	switch tsel {
+	case 1:
 		tt = st
+	case 2:
+		// a differing, non-comparable struct target (e.g. a DTO with an extra slice field)
+		tt = verifNamed("T", verifUserPkg, types.NewStruct([]*types.Var{
+			types.NewField(0, verifUserPkg, "F", verifInt(), false),
+			types.NewField(0, verifUserPkg, "Tags", types.NewSlice(verifInt()), false),
+		}, nil))
 	}
 	s, t := xtype.TypeOf(st), xtype.TypeOf(tt)
 
